@@ -262,6 +262,20 @@ pub fn run(env: &Env, run: &Run) -> (Stats, Coverage) {
             st.nontrivial += 1;
         }
     }));
+    // (b3) same-buffer histories: label A then label B of the same byte length in the same
+    // allocation, every rule at every position on both
+    {
+        let hs: Vec<char> = [0x61u32, 0x6C, 0xB7, 0xE9, ZWJ, ZWNJ, VIRAMA, D, 0x660, 0x6F0, 0x5D0, 0x5F3].iter().map(|c| char::from_u32(*c).unwrap()).collect();
+        let strs = all_strings(&hs, run.tier.pick(3, 4));
+        st.merge(same_buffer_pairs(&strs, |s, st| {
+            let l: Vec<u32> = s.chars().map(|c| c as u32).collect();
+            for pos in 0..l.len() {
+                for r in CtxRule::ALL {
+                    check_rule(env, r, &l, s, pos, st);
+                }
+            }
+        }));
+    }
     // (c) registry over u32
     let exhaustive_u32 = run.tier == Tier::Thorough;
     if exhaustive_u32 {
@@ -280,7 +294,7 @@ pub fn run(env: &Env, run: &Run) -> (Stats, Coverage) {
     st.sample(json!({"rule": "rule_middle_dot", "label": ["l", "U+00B7"], "position": 1, "expected": "Ok(false) or Undefined (After lies outside the label)"}));
     st.sample(json!({"rule": "rule_katakana_middle_dot", "label": ["U+30FB", "X"], "position": 0, "expected": "Ok(true) iff Script(X) in {Hiragana,Katakana,Han} per Scripts-6.3.0, for every scalar X"}));
     let cov = Coverage {
-        rule: format!("(a) every scalar value X substituted into {} role templates (1-deviation from a fixed label) + each of the 8 rule functions on [X],0; (b) every label of length <= {} over {{D,L,R,T,a,virama,ZWNJ,ZWJ}} and of length <= {} over the 14 script/digit/punctuation symbols, every rule at every position in 0..=len+1, usize::MAX-1, usize::MAX; (c) registry on u32; oracle = RFC 5892 App. A conditions over the pinned 6.3.0 Scripts/DerivedJoiningType/UnicodeData(ccc=9), with Undefined tolerated only where a named neighbour lies outside the label; non-trivial = cases where the RFC condition is true", tpls.len(), n1, n2),
+        rule: format!("(a) every scalar value X substituted into {} role templates (1-deviation from a fixed label) + each of the 8 rule functions on [X],0; (b) every label of length <= {} over {{D,L,R,T,a,virama,ZWNJ,ZWJ}} and of length <= {} over the 14 script/digit/punctuation symbols, every rule at every position in 0..=len+1, usize::MAX-1, usize::MAX; (b3) every ordered pair of equal-byte-length labels of length <= 3/4 over 12 symbols presented one after the other in the same allocation; (c) registry on u32; oracle = RFC 5892 App. A conditions over the pinned 6.3.0 Scripts/DerivedJoiningType/UnicodeData(ccc=9), with Undefined tolerated only where a named neighbour lies outside the label; non-trivial = cases where the RFC condition is true", tpls.len(), n1, n2),
         alphabet: json!({"joining": ["U+0626 D", "U+A872 L", "U+0629 R", "U+05BF T", "a", "U+094D virama", "U+200C", "U+200D"],
             "scripts": ["U+30FB", "U+3042", "U+30A2", "U+6F22", "a", "U+0660", "U+06F0", "U+05F3", "U+05F4", "U+05D0", "U+0375", "U+03B1", "U+00B7", "l"],
             "templates": tpls.iter().map(|t| json!({"rule": t.rule.name(), "label": t.label.iter().map(|o| o.map(|v| format!("U+{:04X}", v)).unwrap_or("X".into())).collect::<Vec<_>>(), "pos": t.pos})).collect::<Vec<_>>()}),
